@@ -37,7 +37,7 @@ W("C02", "TIMESTAMP_ADJUST sign", HE, "TIMESTAMP_ADJUST = -11644473600\n", "TIME
 W("C02", "totimestamp forgets the epoch", HE, "        return (self / 10000000.0) + TIMESTAMP_ADJUST\n", "        return self / 10000000.0\n", "R02.2")
 W("C02", "link text decoded as latin-1", PY, "                            dst = omfp.read().decode(\"utf-8\")\n", "                            dst = omfp.read().decode(\"latin-1\")\n", "R02.3")
 W("C02", "walk skips dot files", PY, "                for nm in sorted(os.listdir(str(path))):\n", "                for nm in sorted(n for n in os.listdir(str(path)) if not n.startswith(\".\")):\n", "R02.5")
-W("C02", "walk: directory entry itself not archived", PY, "                if not path.samefile(\".\"):\n                    self.write(path, arcname)\n", "                pass\n", "R02.5")
+W("C02", "walk: directory entry itself not archived", PY, "                if arcname is not None or path != pathlib.Path(\".\"):\n                    self.write(path, arcname)\n", "                pass\n", "R02.5")
 # ---------------------------------------------------------------- C03
 W("C03", "symlink created without is_path_valid", PY,
   "                            if is_path_valid(fileish.parent.joinpath(dst), path) and is_path_contained(\n                                fileish.parent.joinpath(dst), path\n                            ):\n                                sym_target = pathlib.Path(dst)",
@@ -127,7 +127,7 @@ W("C11", "password encoded as utf-8 on the reader side", CO, "        key = calc
 W("C12", "mode r opens r+b", PY, "                \"r\": \"rb\",\n", "                \"r\": \"r+b\",\n", "R12.2")
 W("C12", "reset writes to the archive", PY, "            self.fp.seek(self._packed_start())\n            self.worker = Worker(self.files, self._packed_start(), self.header, self.mp)\n            self._reset_decompressor()\n",
   "            self.fp.seek(self._packed_start())\n            self.fp.write(b\"\")\n            self.worker = Worker(self.files, self._packed_start(), self.header, self.mp)\n            self._reset_decompressor()\n", "R12.1")
-W("C12", "close flushes regardless of mode", PY, "        if \"w\" in self.mode:\n            self._write_flush()\n", "        self._write_flush()\n", "R12.1")
+W("C12", "close flushes regardless of mode", PY, "        if \"w\" in self.mode or \"x\" in self.mode:\n            self._write_flush()\n", "        self._write_flush()\n", "R12.1")
 W("C12", "testzip keeps decoder caches", PY, "        self.worker = Worker(self.files, self._packed_start(), self.header, self.mp)\n        self._reset_decompressor()\n        for f in self.files:", "        self.worker = Worker(self.files, self._packed_start(), self.header, self.mp)\n        for f in self.files:", "R12.3")
 W("C12", "reset clears only the first folder", PY, "            for i, folder in enumerate(self.header.main_streams.unpackinfo.folders):\n                folder.decompressor = None\n", "            for i, folder in enumerate(self.header.main_streams.unpackinfo.folders[:1]):\n                folder.decompressor = None\n", "R12.3")
 W("C12", "worker thread opens the archive r+b", PY, "                fp = open(fp, \"rb\")\n", "                fp = open(fp, \"r+b\")\n", "R12.2")
